@@ -532,6 +532,58 @@ fn c14cli_case(cfg: &Cfg, rep: &mut Report, case_seed: u64, cli: &str, dir: &Pat
         rep.violation("cli-export-existing-changes-answers", format!("exit {:?}, stdout {:?} vs {:?}", o3.code, o3.stdout, o1.stdout), replay);
         return;
     }
+    // 4. the export target appears while the tool is still reading its input (a second job with the same
+    //    target): it must not be overwritten either. The input travels through a FIFO, so the order of events
+    //    is fixed without relying on timing: the target exists before the tool can have read a single byte.
+    if rng.chance(1, 2) {
+        let fifo = dir.join(format!("c14-{}.fifo", case_seed));
+        let late = dir.join(format!("c14-{}-late.json", case_seed));
+        let _ = std::fs::remove_file(&fifo);
+        let _ = std::fs::remove_file(&late);
+        let made = Command::new("mkfifo").arg(&fifo).status().map(|s| s.success()).unwrap_or(false);
+        if made {
+            let mut a4 = direct.clone();
+            a4.push("--grd".into());
+            a4.push("--export".into());
+            a4.push(late.to_string_lossy().to_string());
+            a4.push(fifo.to_string_lossy().to_string());
+            let child = Command::new(cli)
+                .args(&a4)
+                .env_remove("RUST_LOG")
+                .stdout(std::process::Stdio::piped())
+                .stderr(std::process::Stdio::null())
+                .spawn();
+            if let Ok(child) = child {
+                // give the process time to start and to do whatever it does before reading its input
+                std::thread::sleep(std::time::Duration::from_millis(120));
+                std::fs::write(&late, b"SENTINEL created while the tool was reading\n").expect("write late target");
+                // read+write open never blocks on a FIFO; dropping the handle delivers end-of-file
+                if let Ok(mut w) = std::fs::OpenOptions::new().read(true).write(true).open(&fifo) {
+                    use std::io::Write;
+                    let _ = w.write_all(case.text.as_bytes());
+                }
+                let out = child.wait_with_output();
+                rep.count("export_target_created_during_run", 1);
+                let after = std::fs::read(&late).unwrap_or_default();
+                if after != b"SENTINEL created while the tool was reading\n" {
+                    rep.violation(
+                        "cli-export-overwrites-late-target",
+                        "an export target that was created while the tool was still reading its input has been overwritten".into(),
+                        replay,
+                    );
+                    return;
+                }
+                if let Ok(o) = out {
+                    if o.status.code() != Some(0) {
+                        rep.violation("cli-export-late-target-fails", format!("exit {:?}", o.status.code()), replay);
+                        return;
+                    }
+                }
+            }
+            let _ = std::fs::remove_file(&fifo);
+            let _ = std::fs::remove_file(&late);
+        }
+    }
     for f in [&file, &export, &sentinel, &link] {
         let _ = std::fs::remove_file(f);
     }
